@@ -13,6 +13,9 @@ import (
 	"strconv"
 	"strings"
 	"time"
+	_ "time/tzdata" // the zone database travels with the runner
+
+	"github.com/rogpeppe/go-internal/cache"
 
 	"verif/harness/common"
 )
@@ -335,6 +338,23 @@ func trimOracles(out *Outcome, before, after *Snap, now, slack int64, lastUse ma
 				fmt.Sprintf("subdirectory %02x: files without the entry suffix changed: %v -> %v", i, nb, na))
 		}
 	}
+	// --- a directory with something in it is not a cache entry, whatever its name, and what is in it
+	// is not either: it is there afterwards with everything below it as it was
+	for i := range before.Subs {
+		for _, o := range before.Subs[i] {
+			if o.Kind != "D" {
+				continue
+			}
+			if p, ok := findObj(after.Subs[i], o.Name); !ok || p != o {
+				what := "is gone with everything in it"
+				if ok {
+					what = fmt.Sprintf("changed below (%v -> %v)", o, p)
+				}
+				out.find("impl-violation", "foreign-dir-untouched", "foreign-dir:"+map[bool]string{true: "entry-like-name", false: "other-name"}[hasEntrySuffix(o.Name)],
+					fmt.Sprintf("subdirectory %02x: the non-empty directory %q (mtime age %s; files and directories below it are nobody's cache entries) %s", i, o.Name, time.Duration(now-o.Mtime), what))
+			}
+		}
+	}
 	// --- is a trim due?  (independent reading of the record)
 	due, recent := false, false
 	switch {
@@ -445,6 +465,19 @@ func trimOracles(out *Outcome, before, after *Snap, now, slack int64, lastUse ma
 	}
 }
 
+// oddNames lists the names of a snapshot that are not 66-byte entry names (for a panic report).
+func oddNames(s *Snap) string {
+	var l []string
+	for i := range s.Subs {
+		for _, o := range s.Subs[i] {
+			if len(o.Name) != 66 && len(l) < 12 {
+				l = append(l, fmt.Sprintf("%02x/%q(%s)", i, o.Name, o.Kind))
+			}
+		}
+	}
+	return strings.Join(l, " ")
+}
+
 func ageClass(age int64) string {
 	switch {
 	case age < hour:
@@ -459,6 +492,48 @@ func ageClass(age int64) string {
 }
 
 // ---------------------------------------------------------------- running one scenario
+
+// safely makes one call of the package; a panic of the call is returned, not propagated ("Trim
+// never ...": least of all does it take the process down because of a file somebody left there).
+func safely(f func()) (panicked string) {
+	defer func() {
+		if e := recover(); e != nil {
+			panicked = fmt.Sprint(e)
+		}
+	}()
+	f()
+	return ""
+}
+
+// fillDir gives a foreign directory its contents: files (also with entry-like names) and, with
+// depth, directories below it that again look like entries and like cache subdirectories.
+func fillDir(p string, depth int, data string, old time.Time) {
+	var made []string
+	w := func(rel string) {
+		q := filepath.Join(p, rel)
+		os.MkdirAll(filepath.Dir(q), 0o777)
+		os.WriteFile(q, []byte(data+" "+rel), 0o666)
+		made = append(made, q)
+	}
+	w("inner-a")
+	if depth >= 1 {
+		w("notes.txt")
+		w("more/README")
+		w("more/kept-d")
+	}
+	if depth >= 2 {
+		w("more/3c/saved-a/deep-d")
+		w("more/3c/x")
+	}
+	for _, q := range made {
+		os.Chtimes(q, old, old)
+	}
+	for _, d := range []string{"more/3c/saved-a", "more/3c", "more"} {
+		if _, err := os.Lstat(filepath.Join(p, d)); err == nil {
+			os.Chtimes(filepath.Join(p, d), old, old)
+		}
+	}
+}
 
 // relevant returns the subdirectories a scenario can put files into.
 func relevant(scn *Scenario) []int {
@@ -558,6 +633,26 @@ func (rn *runner) runScenario(scn *Scenario) *Outcome {
 	if fsGran > 1 {
 		N -= N % fsGran
 	}
+	if scn.Epoch != 0 && injectable {
+		// a chosen instant instead of the real time (files the code creates without os.Chtimes are
+		// stamped by the runner, see the put event)
+		N = scn.Epoch*1e9 + scn.Frac
+		if fsGran > 1 {
+			N -= N % fsGran
+		}
+		out.Tags = append(out.Tags, "epoch:chosen")
+	}
+	if scn.TZ != "" {
+		// the process's local time zone is an input of everything that computes with time.Time
+		if loc, err := time.LoadLocation(scn.TZ); err == nil {
+			old := time.Local
+			time.Local = loc
+			defer func() { time.Local = old }()
+			out.Tags = append(out.Tags, "tz:"+scn.TZ)
+		} else {
+			out.Tags = append(out.Tags, "tz:unavailable")
+		}
+	}
 	slack := int64(0)
 	if !injectable {
 		N = real0
@@ -608,8 +703,7 @@ func (rn *runner) runScenario(scn *Scenario) *Outcome {
 			os.Chtimes(p, t, t)
 		case "D":
 			os.Mkdir(p, 0o777)
-			os.WriteFile(filepath.Join(p, "inner-a"), []byte(o.Data), 0o666)
-			os.Chtimes(filepath.Join(p, "inner-a"), at(N-30*day), at(N-30*day))
+			fillDir(p, o.Depth, o.Data, at(N-30*day))
 			os.Chtimes(p, t, t)
 		case "L":
 			os.Symlink(filepath.Join(dir, "no-such-target"), p)
@@ -675,12 +769,19 @@ func (rn *runner) runScenario(scn *Scenario) *Outcome {
 		ia, na := indexPath(e.ID)
 		switch e.Op {
 		case "get", "getfile", "getbytes":
-			ent, gerr := c.Get(actionID(e.ID))
-			switch e.Op {
-			case "getfile":
-				c.GetFile(actionID(e.ID))
-			case "getbytes":
-				c.GetBytes(actionID(e.ID))
+			var ent cache.Entry
+			var gerr error
+			if pn := safely(func() {
+				ent, gerr = c.Get(actionID(e.ID))
+				switch e.Op {
+				case "getfile":
+					c.GetFile(actionID(e.ID))
+				case "getbytes":
+					c.GetBytes(actionID(e.ID))
+				}
+			}); pn != "" {
+				out.find("impl-violation", "no-panic", "panic:"+e.Op, fmt.Sprintf("event %d: %s(id%d) panicked: %s", ei, e.Op, e.ID, pn))
+				continue
 			}
 			if gerr != nil {
 				out.Tags = append(out.Tags, "ev:"+e.Op+"-miss")
@@ -704,7 +805,9 @@ func (rn *runner) runScenario(scn *Scenario) *Outcome {
 			evs = append(evs, fmt.Sprintf("L %d %d %s %d %s", u, ia, common.Hex([]byte(na)), id, common.Hex([]byte(nd))))
 		case "outputfile":
 			id, nd := dataPathOf(outputID(e.Data))
-			c.OutputFile(outputID(e.Data))
+			if pn := safely(func() { c.OutputFile(outputID(e.Data)) }); pn != "" {
+				out.find("impl-violation", "no-panic", "panic:outputfile", fmt.Sprintf("event %d: OutputFile panicked: %s", ei, pn))
+			}
 			if exists(id, nd) {
 				lastUse[pathKey(id, nd)] = u
 				restored[pathKey(id, nd)] = false
@@ -720,7 +823,11 @@ func (rn *runner) runScenario(scn *Scenario) *Outcome {
 			oldInfo, _ := os.Stat(dpath)
 			data := content(e.Data)
 			already := rerr == nil && bytes.Equal(old, data)
-			_, _, perr := c.Put(actionID(e.ID), bytes.NewReader(data))
+			var perr error
+			if pn := safely(func() { _, _, perr = c.Put(actionID(e.ID), bytes.NewReader(data)) }); pn != "" {
+				out.find("impl-violation", "no-panic", "panic:put", fmt.Sprintf("event %d: Put(id%d) panicked: %s", ei, e.ID, pn))
+				perr = fmt.Errorf("panic: %s", pn)
+			}
 			// the time a (re)created data file carries
 			ud := u
 			if len(data) == 0 && !already {
@@ -774,8 +881,14 @@ func (rn *runner) runScenario(scn *Scenario) *Outcome {
 		case "trim":
 			before := snapshot(dir, subs)
 			outside := st.outsideTag()
-			terr := c.Trim()
+			var terr error
+			pn := safely(func() { terr = c.Trim() })
 			after := snapshot(dir, subs)
+			if pn != "" {
+				// the oracles below then say what the aborted Trim left undone
+				out.find("impl-violation", "no-panic", "panic:trim", fmt.Sprintf("event %d: Trim panicked: %s; the directory held %s", ei, pn, oddNames(before)))
+				terr = fmt.Errorf("panic: %s", pn)
+			}
 			trimOracles(out, before, after, u, slack, lastUse, restored, terr)
 			if now := st.outsideTag(); now != outside {
 				// "never touches files that are not cache entries": least of all files of other directories
